@@ -595,6 +595,17 @@ pub fn run_c09(o: &Opts) -> Report {
     nse_pair!("<S{--P>?:!-5:", "<S  {--  P> ? :! -5 :");
     nse_pair!("(--,<$x-->#y>)", "( -- , < $x --> #y > )");
     nse_pair!("<(*,{SELF},ball)-->^pick>@", "<(*, {SELF}, ball) --> ^pick> @");
+    // witness of the known class K3 for this property (Han): removing the space before a copula merges the end of the
+    // name with it (`x将 得y` is Implication(x将, y), `x将得y` is ImplicationPredictive(x, y))
+    {
+        let fm = &formats()[2];
+        let (a, b) = (real_parse(fm.e, "「x将 得y」"), real_parse(fm.e, "「x将得y」"));
+        let differ = canon_pr(&a) != canon_pr(&b);
+        cx.rep.hist.add(format!("witness:K3:{}", if differ { "spacing changes the parse" } else { "same" }));
+        if differ {
+            cx.fail("witness", "known-class witness: removing the spaces changes the parse", "[han] \"「x将 得y」\" vs \"「x将得y」\"".into(), canon_pr(&a), canon_pr(&b), Some("K3"));
+        }
+    }
     let per = (o.n / 12).max(8);
     for fm in formats() {
         let g = term_gen_for(&fm, 2, 3);
